@@ -795,6 +795,11 @@ func (c *Ctx) applyContractAt(s *State, fr *Frame, site string, pos token.Pos, f
 	if recvName != "" && len(args) > 0 {
 		env.vars[recvName] = args[0]
 	}
+	// captured variables of a function literal whose contract is applied (set by the caller, consumed here)
+	for k, v := range c.extraContractVars {
+		env.vars[k] = v
+	}
+	c.extraContractVars = nil
 	env.old = s.snapshot()
 	env.lets = fc.Lets
 	for i, r := range fc.Requires {
@@ -899,7 +904,19 @@ func (c *Ctx) applyContractAt(s *State, fr *Frame, site string, pos token.Pos, f
 			// clauses about the callee's own call log (results, per-iteration counts) are checked on the callee only
 			continue
 		}
-		c.assume(s, env2.evalBool(e.Expr))
+		// a clause that names a local variable of the callee is likewise checked on the callee only
+		func() {
+			defer func() {
+				if r := recover(); r != nil {
+					if se, ok := r.(specError); ok && strings.HasPrefix(se.msg, "unknown identifier ") {
+						return
+					}
+					panic(r)
+				}
+			}()
+			t := env2.evalBool(e.Expr)
+			c.assume(s, t)
+		}()
 	}
 	// calls the callee makes (as far as its contract states them) count as calls of the caller
 	if len(env2.calleeCalls) > 0 {
